@@ -2841,6 +2841,20 @@ impl<'de, 'e> de::Deserializer<'de> for YamlDeserializer<'de, 'e> {
             where
                 T: de::DeserializeSeed<'de>,
             {
+                if !self.map_mode {
+                    // `Variant` written as a bare scalar carries no payload: never read the
+                    // following node. Types that accept "nothing" (Option, unit) still work.
+                    let loc = self.ev.last_location();
+                    return seed
+                        .deserialize(serde::de::value::UnitDeserializer::<Error>::new())
+                        .map_err(|e| {
+                            if e.location().is_none() {
+                                e.with_location(loc)
+                            } else {
+                                e
+                            }
+                        });
+                }
                 // Get locations for error reporting before deserializing.
                 let defined_location = self
                     .ev
@@ -2865,6 +2879,10 @@ impl<'de, 'e> de::Deserializer<'de> for YamlDeserializer<'de, 'e> {
             where
                 Vv: Visitor<'de>,
             {
+                if !self.map_mode {
+                    return Err(Error::unexpected("tuple variant payload")
+                        .with_location(self.ev.last_location()));
+                }
                 let result =
                     YamlDeserializer::new(self.ev, self.cfg).deserialize_tuple(len, visitor)?;
                 if self.map_mode {
@@ -2882,6 +2900,10 @@ impl<'de, 'e> de::Deserializer<'de> for YamlDeserializer<'de, 'e> {
             where
                 Vv: Visitor<'de>,
             {
+                if !self.map_mode {
+                    return Err(Error::unexpected("struct variant payload")
+                        .with_location(self.ev.last_location()));
+                }
                 let result = YamlDeserializer::new(self.ev, self.cfg)
                     .deserialize_struct("", fields, visitor)?;
                 if self.map_mode {
